@@ -73,8 +73,16 @@ OnDisable ==
     /\ out' = <<>> /\ br' = <<>>
     /\ UNCHANGED <<sh, built, cur, fin, ran, st0, exp, dur, sd, uv, sdv, lastTm>>
 
-\* on_iteration(tm); act is what the state function (if one is called) does: none / ns(s) / done
-OnIteration(tm, act, tgt) ==
+\* another mode built on the same base class (the selector constructs every mode it finds) runs a whole autonomous
+\* period of its own between two periods of this one: nothing of it shows here
+SiblingPeriod ==
+    /\ out' = <<>> /\ br' = <<>>
+    /\ UNCHANGED <<sh, built, cur, fin, ran, st0, exp, dur, sd, uv, sdv, lastTm>>
+
+\* on_iteration(tm); act is what the state function (if one is called) does: none / ns(s) / done; the state function may
+\* also assign the registered variable (av) and its own '<state>_duration' attribute (ad) - plain attribute writes that
+\* last until the next on_enable() reads the dashboard again (-1: no assignment)
+OnIteration(tm, act, tgt, av, ad) ==
     /\ built
     /\ LET s0 == cur
            expired == s0 # None /\ (Stale \/ ran[s0]) /\ exp[s0] < tm
@@ -84,7 +92,7 @@ OnIteration(tm, act, tgt) ==
        IN IF s1 = None
           THEN /\ cur' = None /\ fin' = TRUE /\ out' = <<>>
                /\ br' = (IF expired THEN <<"ExpireEnd">> ELSE <<"Idle">>)
-               /\ UNCHANGED <<ran, st0, exp>>
+               /\ UNCHANGED <<ran, st0, exp, uv, dur>>
           ELSE LET initial == ~x1.ran[s1]
                    ran2 == [x1.ran EXCEPT ![s1] = TRUE]
                    st2 == IF initial THEN [x1.st0 EXCEPT ![s1] = nss] ELSE x1.st0
@@ -96,31 +104,37 @@ OnIteration(tm, act, tgt) ==
                    x3 == IF act = "ns" THEN Enter(tgt, ran2, st2, ex2) ELSE [ran |-> ran2, st0 |-> st2, exp |-> ex2]
                IN /\ cur' = s2 /\ ran' = x3.ran /\ st0' = x3.st0 /\ exp' = x3.exp
                   /\ fin' = fin
+                  /\ uv' = (IF av # -1 THEN av ELSE uv)
+                  /\ dur' = (IF ad # -1 /\ Timed(s1) THEN [dur EXCEPT ![s1] = ad] ELSE dur)
                   /\ out' = <<call>>
                   /\ br' = (IF expired THEN <<"ExpireNext">> ELSE <<>>)
                            \o (IF initial THEN <<"Enter">> ELSE <<"Continue">>)
                            \o (IF act = "ns" THEN <<"UserNext">> ELSE IF act = "done" THEN <<"UserDone">> ELSE <<>>)
     /\ lastTm' = tm
-    /\ UNCHANGED <<sh, built, dur, sd, uv, sdv>>
+    /\ UNCHANGED <<sh, built, sd, sdv>>
 
 EvEnabled(ev) ==
     CASE ev.e = "sdw" -> ev.s \in States /\ Timed(ev.s)
       [] ev.e = "iter" -> built /\ (ev.act = "ns" => ev.s \in States)
-      [] ev.e \in {"varw", "enable", "disable"} -> TRUE
+      [] ev.e \in {"varw", "enable", "disable", "sibling"} -> TRUE
       [] OTHER -> FALSE
 EvNext(ev) ==
     CASE ev.e = "sdw"     -> SdWrite(ev.s, ev.d)
       [] ev.e = "varw"    -> VarWrite(ev.v)
       [] ev.e = "enable"  -> OnEnable
       [] ev.e = "disable" -> OnDisable
-      [] ev.e = "iter"    -> OnIteration(ev.tm, ev.act, ev.s)
+      [] ev.e = "sibling" -> SiblingPeriod
+      [] ev.e = "iter"    -> OnIteration(ev.tm, ev.act, ev.s, IF "av" \in DOMAIN ev THEN ev.av ELSE -1,
+                                         IF "ad" \in DOMAIN ev THEN ev.ad ELSE -1)
 
 Obs == [cb |-> out]
 Has(b) == \E i \in 1..Len(br) : br[i] = b
 
 (* C15 *)
 C15_NonNegative == \A i \in 1..Len(out) : out[i].stm >= 0
-C15_WithinDuration == \A i \in 1..Len(out) : (~out[i].ic /\ dur[out[i].s] # NoDur) => out[i].stm <= dur[out[i].s]
+\* (the duration in force is the one the state was entered with: exp - st0)
+C15_WithinDuration == \A i \in 1..Len(out) : (~out[i].ic /\ ran[out[i].s] /\ exp[out[i].s] # Inf)
+                                                => out[i].stm <= exp[out[i].s] - st0[out[i].s]
 \* a state that was entered is always called at least once before its expiry can move the machine on
 C15_RunsBeforeExpiring ==
     [][((Has("ExpireNext") \/ Has("ExpireEnd"))' /\ cur # None) => ran[cur]]_savars
